@@ -1,6 +1,7 @@
 """Configuration of ./check C20 (see cfg/README)."""
 
-PROP = {'modules': ['SfntV.Props.C20'],
+PROP = {'drive': ['GNames'],
+ 'modules': ['SfntV.Props.C20'],
  'required_theorems': ['C20_total',
                        'C20_complete',
                        'C20_unique',
